@@ -548,6 +548,41 @@ fn sparql_error<'a, T>(input: &'a str, kind: nom::error::ErrorKind) -> IResult<&
     Err(nom::Err::Error(nom::error::Error::new(input, kind)))
 }
 
+/// Deepest nesting (groups, subqueries, parenthesised filter expressions, quoted
+/// triples) the recursive-descent parsers follow; deeper input is a syntax error
+/// instead of exhausting the stack.
+const SPARQL_MAX_NESTING: usize = 128;
+
+thread_local! {
+    static SPARQL_NESTING: std::cell::Cell<usize> = const { std::cell::Cell::new(0) };
+}
+
+/// Counts one level of parser recursion for as long as it is alive.
+struct SparqlNestingGuard;
+
+impl SparqlNestingGuard {
+    fn enter(input: &str) -> Result<Self, nom::Err<nom::error::Error<&str>>> {
+        let depth = SPARQL_NESTING.with(|nesting| {
+            nesting.set(nesting.get() + 1);
+            nesting.get()
+        });
+        let guard = SparqlNestingGuard;
+        if depth > SPARQL_MAX_NESTING {
+            return Err(nom::Err::Failure(nom::error::Error::new(
+                input,
+                nom::error::ErrorKind::TooLarge,
+            )));
+        }
+        Ok(guard)
+    }
+}
+
+impl Drop for SparqlNestingGuard {
+    fn drop(&mut self) {
+        SPARQL_NESTING.with(|nesting| nesting.set(nesting.get().saturating_sub(1)));
+    }
+}
+
 fn sparql_name_character(character: char) -> bool {
     character.is_alphanumeric() || matches!(character, '_' | '-' | ':')
 }
@@ -971,6 +1006,7 @@ fn sparql_quoted_literal(input: &str) -> IResult<&str, &str> {
 
 fn sparql_quoted_triple_parts(input: &str) -> IResult<&str, LexicalTriplePattern<'_>> {
     let input = sparql_skip_ws(input);
+    let _nesting = SparqlNestingGuard::enter(input)?;
     let Some(input) = input.strip_prefix("<<") else {
         return sparql_error(input, nom::error::ErrorKind::Tag);
     };
@@ -1081,6 +1117,7 @@ fn sparql_triples_statement(input: &str) -> IResult<&str, Vec<LexicalTriplePatte
 
 fn sparql_filter_operand(input: &str) -> IResult<&str, ArithmeticExpression<'_>> {
     let input = sparql_skip_ws(input);
+    let _nesting = SparqlNestingGuard::enter(input)?;
     if let Some(after_open) = input.strip_prefix('(') {
         let (after_expression, expression) = sparql_filter_arithmetic(after_open)?;
         let (remaining, _) = sparql_char(after_expression, ')')?;
@@ -1214,6 +1251,7 @@ fn sparql_filter_function(input: &str) -> IResult<&str, FilterExpression<'_>> {
 
 fn sparql_filter_atom(input: &str) -> IResult<&str, FilterExpression<'_>> {
     let input = sparql_skip_ws(input);
+    let _nesting = SparqlNestingGuard::enter(input)?;
     if let Some(after_not) = input.strip_prefix('!') {
         if !after_not.starts_with('=') {
             let (remaining, expression) = sparql_filter_atom(after_not)?;
@@ -1430,6 +1468,7 @@ fn sparql_group_primary(input: &str) -> IResult<&str, GroupGraphPattern<'_>> {
 
 /// Parses a recursive group graph pattern containing BGP, GRAPH, and UNION.
 pub fn parse_group_graph_pattern(input: &str) -> IResult<&str, GroupGraphPattern<'_>> {
+    let _nesting = SparqlNestingGuard::enter(input)?;
     let (mut input, _) = sparql_char(input, '{')?;
     let mut joined = Vec::new();
     loop {
